@@ -125,6 +125,36 @@ auto make_tterm(const char* name)
     else return ctpg::custom_term(name, TermF<I>{});
 }
 
+
+// (precedence, associativity) reported by a term object that is built the way a user writes it: the template's term kind (custom_term under
+// use_lexer<L>; char / typed / string / regex terms under the generated lexer), with the shorter constructor overloads when the values are defaults
+constexpr char dsl_rx_pattern[] = "[0-9]+";
+template<class LexerUsage>
+std::pair<int, int> dsl_term_attrs(int which, int prec, int assoc)
+{
+    using namespace ctpg;
+    associativity a = associativity(assoc);
+    auto rep = [](const auto& t) { return std::pair<int, int>(t.get_precedence(), int(t.get_associativity())); };
+    if constexpr (!std::is_same_v<LexerUsage, use_generated_lexer>)
+    {
+        if (prec == 0 && assoc == 0 && which % 2 == 0) return rep(custom_term("x", TermF<0>{}));
+        if (assoc == 0 && which % 2 == 1) return rep(custom_term("x", TermF<0>{}, prec));
+        return rep(custom_term("x", TermF<0>{}, prec, a));
+    }
+    else
+    {
+        const bool dflt = prec == 0 && assoc == 0, noassoc = assoc == 0;
+        switch (which % 5)
+        {
+        case 0: return dflt ? rep(char_term('a')) : noassoc ? rep(char_term('a', prec)) : rep(char_term('a', prec, a));
+        case 1: return rep(typed_term(char_term('a', prec, a), TermF<0>{}));
+        case 2: return dflt ? rep(string_term("kw")) : noassoc ? rep(string_term("kw", prec)) : rep(string_term("kw", prec, a));
+        case 3: return dflt ? rep(regex_term<dsl_rx_pattern>("num")) : rep(regex_term<dsl_rx_pattern>("num", prec, a));
+        default: return noassoc && prec != 0 ? rep(regex_term<dsl_rx_pattern>(prec)) : rep(regex_term<dsl_rx_pattern>(prec, a));
+        }
+    }
+}
+
 template<class Limits, class LexerUsage = ctpg::use_generated_lexer>
 auto make_t36(Limits lim, LexerUsage lu = LexerUsage{})
 {
@@ -277,7 +307,7 @@ struct T20
         constexpr ctpg::nterm<TV> n0("N0");
         if (has) return n0('a')[prec].get_precedence();
         return n0('a').get_precedence();
-    }
+    }    static std::pair<int, int> dsl_term(int which, int prec, int assoc) { return dsl_term_attrs<ctpg::use_generated_lexer>(which, prec, assoc); }
 };
 
 template<class Limits, class LexerUsage = ctpg::use_generated_lexer>
@@ -302,6 +332,6 @@ struct T36
         constexpr ctpg::nterm<TV> n0("N0");
         if (has) return n0('a')[prec].get_precedence();
         return n0('a').get_precedence();
-    }
+    }    static std::pair<int, int> dsl_term(int which, int prec, int assoc) { return dsl_term_attrs<LexerUsage>(which, prec, assoc); }
 };
 }
